@@ -64,6 +64,7 @@ func (e *Engine) verifyFunc(fn *ssa.Function, fc *FuncContract) *FuncReport {
 		}
 		s := e.newState(dec, name)
 		s.unfoldCRC = fc.Options["unfold-crcfold"]
+		s.mergeScalars = fc.Options["merge-scalar-branches"]
 		s.ghostlog = map[string]bool{}
 		s.ghostlogContract = map[string]bool{}
 		for _, g := range fc.GhostLog {
